@@ -1406,6 +1406,8 @@ def c19_keywords(ctx):
             for depth in (1, 2, 6):
                 for ind in deep:     # any indentation: four or more blanks do not make the line a code block
                     reqs.append(("match_md", [kind, ms, False, ind + "#" * depth + " " + k + ": deep title\n", 4]))
+            for title in ("see ticket #", "#", "x ##", "C#", "a # b", "## x ##", "x #\t"):   # a title is the trimmed rest, '#' included
+                reqs.append(("match_md", [kind, ms, False, "## " + k + ": " + title + "\n", 4]))
             reqs.append(("match_md", [kind, ms, False, "##" + k + ": no blank\n", 4]))
             reqs.append(("match_md", [kind, ms, False, "##\t" + k + ":tab\r\n", 4]))
             reqs.append(("match_md", [kind, ms, False, k + ": no header prefix\n", 4]))
@@ -2733,3 +2735,82 @@ def o_hash_seeds(ctx):
 
 P.PROPS["C15"]["streams"].append(o_hash_seeds)
 P.PROPS["C08"]["streams"].append(o_hash_seeds)
+
+
+def o_c01_every_dialect(ctx):
+    """no foreign exception under any dialect of the table: for every dialect code a document that selects it and then
+    goes through every match_* method (free text, tag, row, doc string, bullet, keyword-less lines), both modes, stream"""
+    impl = impl_mod()
+    from common import REPO
+    with open(os.path.join(REPO, "python", "gherkin", "gherkin-languages.json"), encoding="utf8") as f:
+        table = json.load(f)
+    codes = sorted(table)
+
+    def kw(code, role):
+        v = table[code].get(role) or ["Missing"]
+        return [k for k in v if k.strip() != "*"][0] if any(k.strip() != "*" for k in v) else v[0]
+
+    def bodies_of(code):
+        # the dialect's own feature / scenario / step keywords, so that every state's tests are reached
+        head = "%s: f\n" % kw(code, "feature")
+        return ["some free text\n  more text\n@tag\n| row |\n```\nx\n```\n* bullet\nRule: r\nnot a keyword:\n", "\n\n# comment\nplain\n",
+                head + "  free text in the description\n  not a keyword:\n  %s: s\n    %sx\n    oops\n" % (kw(code, "scenario"), kw(code, "given")),
+                head + "\n  @t\n  %s: s\n    description line\n    %sx\n      | a |\n    ```\n    text\n" % (kw(code, "scenarioOutline"), kw(code, "when"))]
+
+    def check(code):
+        for body in bodies_of(code):
+            src = "# language: %s\n%s" % (code, body)
+            for stop in (False, True):
+                res = impl.parse(stop, "en", src)
+                if "foreign" in res:
+                    return {"what": "foreign exception %s from Parser.parse under dialect %s (stop=%s): %s" % (res["foreign"], code, stop, res.get("text")), "source": src}
+            ev = impl.events(True, True, True, False, [["u", src]])
+            if "envelopes" not in ev:
+                return {"what": "GherkinEvents.enum raised under dialect %s: %r" % (code, ev), "source": src}
+            res = impl.parse(False, code, body)
+            if "foreign" in res:
+                return {"what": "foreign exception %s with TokenMatcher(%r): %s" % (res["foreign"], code, res.get("text")), "source": body}
+        return None
+    return oracle("every-dialect-exception-types", codes, check, describe=lambda c: c)
+
+
+P.PROPS["C01"]["streams"].append(o_c01_every_dialect)
+P.PROPS["C05"]["streams"] += [c14_language_lines, P.unit_language]
+P.PROPS["C10"]["streams"].append(o_interleave)
+P.PROPS["C15"]["streams"].append(compile_stream("C15", pj_pickles(lambda p: p), nt_pickles(lambda p: len(p["tags"]) >= 1), nparsed=(150, 2000), nrandom=(300, 6000)))
+
+
+def o_error_location_consistency(ctx):
+    """the location an error object carries is the position its message names, at the time the error is delivered (collected
+    errors are delivered after the parse went on: nothing may have rewritten them meanwhile)"""
+    import re as _re
+    impl = impl_mod()
+    heads = ["# language: zz", "   # language: nope", "\t#language:xx-YY", " # language: qq  "]
+    srcs = [h + "\nFeature: f\n  Scenario: s\n    Given g\n" for h in heads] + ["\n\n  " + h + "\nFeature: f\n" for h in heads]
+    srcs += ["Feature: f\n   @a b\n  Scenario: s\n", "Feature: f\n  Scenario: s\n    Given g\n        | a |\n        | b | c |\n", "  oops\nFeature: f\n      bad again:\n"]
+    srcs += S.mutated_sources(S.n_for(150, 2000), salt="errloc")
+
+    def check(src):
+        for stop in (False, True):
+            res = impl.parse(stop, "en", src)
+            for e in res.get("errors", []) + ([res["error"]] if "error" in res else []):
+                m = _re.match(r"\((\d+):(\d+)\): ", e["message"])
+                if not m:
+                    return {"what": "error message without a position prefix: %r" % (e,)}
+                loc = e["location"]
+                if (loc.get("line"), loc.get("column") or 0) != (int(m.group(1)), int(m.group(2))):
+                    return {"what": "error location %r is not the position its message names %r (stop=%s)" % (loc, e["message"][:60], stop)}
+        ev = impl.events(False, True, True, False, [["u", src]])
+        for env in ev.get("envelopes", []):
+            if "parseError" in env:
+                pe = env["parseError"]
+                m = _re.match(r"\((\d+):(\d+)\): ", pe["message"])
+                loc = pe["source"]["location"]
+                if not m or (loc.get("line"), loc.get("column") or 0) != (int(m.group(1)), int(m.group(2))):
+                    return {"what": "parseError location %r is not the position its message names %r" % (loc, pe["message"][:60])}
+        return None
+    return oracle("error-location-consistency", srcs, check, describe=lambda s_: s_[:80])
+
+
+for _pid in ("C04", "C05", "C14"):
+    P.PROPS[_pid]["streams"].append(o_error_location_consistency)
